@@ -100,8 +100,11 @@ func (hs *clientHandshakeStateTLS13) decompressCert(m utlsCompressedCertificateM
 	rawMsg[2] = uint8(m.uncompressedLength >> 8)
 	rawMsg[3] = uint8(m.uncompressedLength)
 
-	n, err := decompressed.Read(rawMsg[4:])
-	if err != nil && !errors.Is(err, io.EOF) {
+	// A decompressor may deliver its output in several chunks (a zlib stream
+	// with a flush, a multi-block zstd frame, ...), so read until the declared
+	// length is reached or the stream ends.
+	n, err := io.ReadFull(decompressed, rawMsg[4:])
+	if err != nil && !errors.Is(err, io.EOF) && !errors.Is(err, io.ErrUnexpectedEOF) {
 		c.sendAlert(alertBadCertificate)
 		return nil, err
 	}
@@ -111,6 +114,13 @@ func (hs *clientHandshakeStateTLS13) decompressCert(m utlsCompressedCertificateM
 		// https://datatracker.ietf.org/doc/html/rfc8879#section-4
 		c.sendAlert(alertBadCertificate)
 		return nil, fmt.Errorf("decompressed len (%d) does not match specified len (%d)", n, m.uncompressedLength)
+	}
+	// The same rule applies when the stream decompresses to more than the
+	// declared length.
+	var trailing [1]byte
+	if k, _ := io.ReadFull(decompressed, trailing[:]); k != 0 {
+		c.sendAlert(alertBadCertificate)
+		return nil, fmt.Errorf("decompressed data is longer than the specified len (%d)", m.uncompressedLength)
 	}
 	certMsg := new(certificateMsgTLS13)
 	if !certMsg.unmarshal(rawMsg) {
